@@ -129,17 +129,16 @@ def pure(obs, n0):
     return obs
 
 
-def one_comma_one_arrow(a, n, p, w):
-    """the string (a, n) is  l , r -> t  with its only comma at p and the only arrow after it at w"""
+def one_comma_one_arrow(a, n, p, v):
+    """the string (a, n) is  l , r -> t  with its only comma at p and, in the text after the comma, its only arrow
+    at v (= len(r)); positions after the comma are written p + 1 + q, the coordinates of that text"""
     q = fresh_int('q')
 
     def arrow(i):
-        return z3.And(i >= 0, i + 2 <= n, a[i] == MINUS, a[i + 1] == GT)
+        return z3.And(i >= 0, i + p + 3 <= n, a[i + p + 1] == MINUS, a[i + p + 2] == GT)
     return z3.And(0 <= p, p < n, a[p] == COMMA,
                   z3.ForAll([q], z3.Implies(z3.And(0 <= q, q < n, a[q] == COMMA), q == p)),
-                  p < w, arrow(w),
-                  # positions after the comma are written p + 1 + q (the coordinates of the text after the comma)
-                  z3.ForAll([q], z3.Implies(z3.And(q >= 0, arrow(q + p + 1)), q + p + 1 == w)))
+                  arrow(v), z3.ForAll([q], z3.Implies(arrow(q), q == v)))
 
 
 def swap(c, f, x):
@@ -198,7 +197,7 @@ def _build(ck):
             l, rr, t = r
             p = to_z3(l.length)
             w = p + 1 + to_z3(rr.length)
-            S.oblige('post', shape(p, w), tag='one-comma-one-arrow-at-the-term-boundaries')
+            S.oblige('post', shape(p, to_z3(rr.length)), tag='one-comma-one-arrow-at-the-term-boundaries')
             S.oblige('post', w + 2 + to_z3(t.length) == n, tag='terms-cover-the-string')
             S.oblige('post', l.forall(lambda k, e: to_z3(e) == a[to_z3(k)]), tag='left-term-is-the-text-before-the-comma')
             S.oblige('post', rr.forall(lambda k, e: to_z3(e) == a[to_z3(k) + p + 1]),
@@ -301,7 +300,7 @@ def _build(ck):
             g = S.call(S.func(f'{CLS}._parse_subscripts'), [s])
             if g.normal:
                 pw = to_z3(g.value[0].length)
-                S.oblige('exc', one_comma_one_arrow(a, n, pw, pw + 1 + to_z3(g.value[1].length)),
+                S.oblige('exc', one_comma_one_arrow(a, n, pw, to_z3(g.value[1].length)),
                          tag='accepts-only-subscripts-with-one-comma-and-one-arrow')
             else:
                 S.oblige('exc', False, tag='accepts-only-subscripts-with-one-comma-and-one-arrow')
